@@ -106,7 +106,8 @@ Definition dec_listener (s : sexp) : option listener :=
   | L [A 2%Z; e] => option_map LFail (dec_exn e)
   | _ => None
   end.
-Definition run_C04 (s : sexp) : sexp :=
+(* the run of a command already selected, on the wire (the check's entry point run_C04 is in Model/RunLine.v) *)
+Definition run_C04_selected (s : sexp) : sexp :=
   match s with
   | L [c; d; ls; h] =>
     match dB c, dB d, dList dec_listener ls, dec_outcome h with
